@@ -190,6 +190,16 @@ func (v *Vue) evaluateNodeAsElement(ctx VueContext, node *html.Node, depth int) 
 		return result, nil
 	}
 
+	// v-once on a chain member: the element counts as rendered when its branch is chosen,
+	// not when the chain is merely looked at.
+	if helpers.HasAttr(node, "v-once") {
+		vSeenID := helpers.GetAttr(node, "v-once-id")
+		if ctx.seen[vSeenID] {
+			return nil, nil
+		}
+		ctx.seen[vSeenID] = true
+	}
+
 	// A chosen <slot v-if / v-else-if / v-else> is filled like any other slot.
 	if node.Data == "slot" {
 		return v.evalSlot(ctx, node, ctx.SlotScope)
